@@ -21,7 +21,10 @@ FN_OBJECTS = [{"Ref": "P1"}, {"Fn::Sub": "${AWS::Region}-x"}, {"Fn::GetAtt": ["R
               {"Ref": "AWS::NoValue"}]
 FN_STR = [{"Ref": "P1"}, {"Fn::Sub": "${AWS::Region}-x"}, {"Fn::GetAtt": ["Res", "Arn"]}, {"Fn::ImportValue": "exp"},
           {"Fn::Join": ["-", ["a", {"Ref": "AWS::AccountId"}]]}, {"Fn::If": ["C1", "a", "b"]}, {"Fn::Select": [0, ["a", "b"]]},
-          {"Fn::FindInMap": ["M", "k1", "s"]}]
+          {"Fn::FindInMap": ["M", "k1", "s"]},
+          # references that CANNOT be resolved: the placeholder text must be accepted wherever text is (seeded change C03-r4m2 typed
+          # DeletionPolicy as a Literal, so UNDEFINED_PARAM_... made resolve() raise)
+          {"Ref": "NoSuchParameter"}, {"Fn::FindInMap": ["M", "no-such-key", "s"]}, {"Fn::Sub": "${NotBound}-x"}]
 STRS = ["a", "b", "prod", "x-y", "my bucket", "arn:aws:s3:::b", "", "é中", "x€y", "7", "0", "true", "False", "1.5", "None",
         "2012-10-17", "10.0.0.0/8", "{\"a\": 1}", "*", "s3:Get*", "AWS::S3::Bucket", "null"]
 NET4 = ["10.0.0.0/8", "10.1.2.3/8", "0.0.0.0/0", "192.168.1.1", "172.16.0.0/12", "1.2.3.4/32", "10.0.0.0/255.0.0.0", "100.64.0.0/10",
